@@ -18,6 +18,8 @@ struct Plan : sim::PlanBase {
   int nmol = 8;            // molecules
   int chain = 3;           // beads per molecule
   int fmt = 0;             // 0 LAMMPS dump, 1 gro, 2 pdb, 3 xyz (box from the topology), 4 DL_POLY HISTORY
+  int top_fmt = 0;         // --top: 0 generated XML topology, 1 gro, 2 pdb, 3 xyz (first frame written in that format; the same
+                           //        TopologyReader object then reads it once per worker)
   int variant = 0;         // tool specific option bits
   int block = 0;           // block length (csg_stat)
   int vol_jitter = 0;      // 1: the box volume differs from frame to frame; 2: it changes every second or third frame only
@@ -51,7 +53,9 @@ long selected_frames(const Plan &p);           // number of frames the selection
 
 // helpers for generators
 std::string gen_topology_xml(const Plan &p, bool two_types, double box = 0);
-const char *trj_file(const Plan &p);   // name of the trajectory file for the plan's format
+const char *trj_file(const Plan &p);
+// writes the topology file of the plan into c.files and returns its name ("topol.xml", "conf.gro", ...)
+std::string add_topology(const Plan &p, Case &c, bool two_types, double box, bool need_xml = false);   // name of the trajectory file for the plan's format
 std::string gen_trajectory(const Plan &p, double box, int nbeads_total);
 std::string fmt_double(double v);
 
